@@ -193,6 +193,14 @@ def dump(src, filt, std="gnu++17", defines=(), extra=()):
         if tmp:
             # keep the text for diagnostics
             d._files[path] = src.encode()
+        # clang's JSON gives no name for UnresolvedMemberExpr (implicit-this member call in a template pattern):
+        # recover it from the source text
+        import re as _re
+        for n in d.walk():
+            if n.get("kind") == "UnresolvedMemberExpr" and "member" not in n:
+                txt = d.text(n)
+                m = _re.search(r"([A-Za-z_]\w*)\s*(<[^()]*>)?\s*$", txt.split("(")[0])
+                n["member"] = m.group(1) if m else "?"
         return d
     finally:
         if tmp:
